@@ -50,6 +50,12 @@ def structPair (rdPkg wrPkg : Pkg) (a b : Ty) : Option (Bool × Bool) :=
   let (p2, e2) := b.strip
   if e1.isStructNamed && e1.isNamedIn rdPkg && e2.isStructNamed && e2.isNamedIn wrPkg then some (p1, p2) else none
 
+/-- assignment for identical types, else a Go conversion other than string<->fixed-width integer -/
+def specScalar (inp : Input) (a b : Ty) : Option Strat :=
+  if a == b then some .assign
+  else if rawConv inp.conv a b && !mayMisConv a b then some .conv
+  else none
+
 def specStrategy (inp : Input) (rdPkg wrPkg : Pkg) (a b : Ty) : Option Strat :=
   match (indexed inp.fns).find? (fun kf => kf.2.param == a && kf.2.result == b) with
   | some kf => some (.func kf.1)
@@ -61,11 +67,33 @@ def specStrategy (inp : Input) (rdPkg wrPkg : Pkg) (a b : Ty) : Option Strat :=
       | .slice ea, .slice eb =>
         (match structPair rdPkg wrPkg ea eb with
          | some (r, w) => some (.each r w)
-         | none => if a == b then some .assign else none)      -- distinct slice types never convert
-      | _, _ =>
-        if a == b then some .assign
-        else if rawConv inp.conv a b && !mayMisConv a b then some .conv
-        else none
+         | none => specScalar inp a b)
+      | _, _ => specScalar inp a b
+
+/-! ## The per-pair decision in closed form (what the write-set loop computes for one pair) -/
+
+def firstFn (fns : List (Nat × Fn)) (a b : Ty) : Option Nat :=
+  (fns.find? (fun kf => kf.2.param == a && kf.2.result == b)).map (·.1)
+
+/-- mismatch pass for reading type `a`, written type `b`: method, else recursive mapping of named
+    types of the two packages, else the same for slice elements -/
+def misStrat (fns : List (Nat × Fn)) (rdPkg wrPkg : Pkg) (a b : Ty) : Option Strat :=
+  match firstFn fns a b with
+  | some k => some (.func k)
+  | none =>
+    if a.strip.2.isNamedIn rdPkg && b.strip.2.isNamedIn wrPkg then some (.sub a.strip.1 b.strip.1)
+    else match a, b with
+      | .slice e1, .slice e2 =>
+        if e1.strip.2.isNamedIn rdPkg && e2.strip.2.isNamedIn wrPkg then some (.each e1.strip.1 e2.strip.1) else none
+      | _, _ => none
+
+/-- match pass: assignment for identical types, else conversion (minus string<->fixed-width int) -/
+def matStrat (conv : List (Ty × Ty)) (a b : Ty) : Option Strat :=
+  if a == b then some .assign else if (matchType conv a b).2 then some .conv else none
+
+/-- the strategy of a name-matched pair: mismatch pass first -/
+def pairStrat (conv : List (Ty × Ty)) (fns : List (Nat × Fn)) (rdPkg wrPkg : Pkg) (a b : Ty) : Option Strat :=
+  (misStrat fns rdPkg wrPkg a b).orElse (fun _ => matStrat conv a b)
 
 /-! ## Which leaves take part -/
 
@@ -142,6 +170,46 @@ def obsLeaf (o : Outcome) (l : Leaf) : String :=
   | .panic => "panic"
   | .nil => "nil"
 
+/-! ## Observables of C05 (model side, spec side) -/
+
+/-- `{{if not .IsFromOnly}}` / `{{if not .IsToOnly}}`: which methods are emitted -/
+def toGen (inp : Input) : Bool := inp.way != .fromOnly
+def fromGen (inp : Input) : Bool := inp.way != .toOnly
+
+/-- does the generated file type-check, as far as the model can tell -/
+def modelCompiles (inp : Input) : Bool :=
+  let p := plan inp
+  (!toGen inp || (p.toStmts.all (stmtCompiles inp.src inp.dest) &&
+    (match p.destCtor with | some as => as.all (argCompiles inp.src) | none => true))) &&
+  (!fromGen inp || (p.fromStmts.all (stmtCompiles inp.dest inp.src) &&
+    (match p.srcCtor with | some as => as.all (argCompiles inp.dest) | none => true)))
+
+def optV : Option V → Option String
+  | some v => some v.show
+  | none => none
+
+/-- C05 observables: presence of the two methods, and per written leaf where its value came from -/
+def obs05 (inp : Input) : List (String × String) :=
+  if !modelCompiles inp then [("compile", "error")] else
+  [("compile", "ok"), ("to:present", toString (toGen inp)), ("from:present", toString (fromGen inp))]
+    ++ (if toGen inp then
+          let o := execTo inp []
+          match o with
+          | .value _ => (leavesOf inp.dest).map (fun l => ("to:" ++ joinPath l.path, obsLeaf o l))
+          | _ => [("to:panic", "true")]
+        else [])
+    ++ (if fromGen inp then
+          let o := execFrom inp []
+          match o with
+          | .value _ => (leavesOf inp.src).map (fun l => ("from:" ++ joinPath l.path, obsLeaf o l))
+          | _ => [("from:panic", "true")]
+        else [])
+
+def spec05 (inp : Input) : List (String × String) :=
+  [("compile", "ok"), ("to:present", toString (toGen inp)), ("from:present", toString (fromGen inp))]
+    ++ (if toGen inp then (leavesOf inp.dest).filterMap (fun l => (optV (specTo inp l)).map (fun v => ("to:" ++ joinPath l.path, v))) else [])
+    ++ (if fromGen inp then (leavesOf inp.src).filterMap (fun l => (optV (specFrom inp l)).map (fun v => ("from:" ++ joinPath l.path, v))) else [])
+
 /-! ## Regions -/
 
 def levelNames : Tree → List String
@@ -191,7 +259,8 @@ def subNamesAgree (a b : Ty) : Bool :=
 
 def grammarOk (inp : Input) : Bool :=
   wfLevels inp.src && wfLevels inp.dest && wfSelectors inp.src && wfSelectors inp.dest &&
-  !dupFns inp.fns && wfNewSide inp.src inp.srcNew && wfNewSide inp.dest inp.destNew &&
+  !dupFns inp.fns && inp.fns.all (fun f => !f.param.isStructSlice && !f.result.isStructSlice) &&
+  wfNewSide inp.src inp.srcNew && wfNewSide inp.dest inp.destNew &&
   (leavesOf inp.src).all (fun s => (leavesOf inp.dest).all (fun d => subNamesAgree s.decl.ty d.decl.ty)) &&
   (leavesOf inp.dest).all (fun d => match d.decl.tag with | .name _ => false | _ => true)
 
@@ -201,8 +270,6 @@ def uniquePairs (inp : Input) : Bool :=
   let ps := pairs inp.nm p.srcFields p.destFields
   (ps.map (·.1.name)).Nodup && (ps.map (·.2.name)).Nodup
 
-def toGen (inp : Input) : Bool := inp.way != .fromOnly
-def fromGen (inp : Input) : Bool := inp.way != .toOnly
 
 /-- F_multiMatch: some reading field has two claims in a generated direction — `Target` keeps only the last -/
 def F_multiMatch (inp : Input) : Bool :=
